@@ -185,6 +185,9 @@ def run(tier="quick", seed=0, replay=None):
         print(open(replay).read())
         return 1
     core.lean_stage(chk, "C19")
+    from harness import cover
+    _cv = cover.Cover(['ixai/storage/tree_storage.py', 'ixai/imputer/tree_imputer.py'])
+    _cv.__enter__()
     quick = tier == "quick"
     reqs, impls = [], []
     for i in range(8 if quick else 40):
@@ -219,6 +222,8 @@ def run(tier="quick", seed=0, replay=None):
                     chk.tie_failure("correspondence:TreeStorage", f"{desc}: impl final={str(impl['final'])[:300]} model={str(model_final)[:300]}")
     else:
         chk.tie_failure("driver", "model driver not built")
+    _cv.__exit__(None, None, None)
+    cover.gate(chk, _cv, only_functions=['TreeStorage', 'TreeImputer', 'get_all_tree_paths', 'walk_through_tree'])
     chk.exhaustive = False
     chk.extra["explanation"] = ("Bookkeeping theorems over an abstract tree oracle; the oracle answers are recorded from river's real trees and the model's reservoirs "
                                 "must equal the real ones; hypotheses and property clauses are monitored after every update and imputation.")
